@@ -36,10 +36,10 @@ type h4Inv struct {
 }
 
 type h4OpRec struct {
-	Kind             string
-	CallNs, RetNs    int64
-	CallSeq, RetSeq  uint64
-	ExecutingAtRet   int
+	Kind            string
+	CallNs, RetNs   int64
+	CallSeq, RetSeq uint64
+	ExecutingAtRet  int
 }
 
 type h4Shared struct {
